@@ -2706,7 +2706,7 @@ class SiblingScopes(VC):
         # siblings: the same depth (the same level value)
         st.get(self.t2.ref).fields["level"] = st.get(self.t1.ref).fields["level"]
         self.t2.L = self.t1.L
-        st.assume(z3.InRe(self.n.t, IDENT_RE), *str_int_spec(self.t1.L), *name_spec(self.n.t))
+        # no string facts are needed: both calls build literally the same identifier term (the paths stay trivially satisfiable)
         return [self.t2.ref, self.n, (ALIAS, "x")], {}
 
     def paths(self, I):
@@ -2887,10 +2887,13 @@ class BranchUpdateCommutes(Task):
         from pyvc import extract
         fn = extract.resolve("jinja2.idtracking:Symbols.branch_update")
         node, module = extract.function_ast(fn)
+        # found by SHAPE, not by the names of locals: the loop over a local SET of names (a plain name that is not a parameter of
+        # the function); the other loops of branch_update iterate the parameter (the sequence of branch tables)
+        params = {a.arg for a in node.args.posonlyargs + node.args.args + node.args.kwonlyargs}
         loops = [n for n in ast.walk(node) if isinstance(n, ast.For) and isinstance(n.iter, ast.Name) and isinstance(n.target, ast.Name)
-                 and n.iter.id == "stores"]
+                 and n.iter.id not in params]
         if len(loops) != 1:
-            raise Unsupported("branch_update has no unique `for <name> in stores` loop")
+            raise Unsupported("branch_update has no unique loop over a local set of names")
         return loops[0], node, module
 
     def run_order(self, I, st, tab, fnode, module, loop, names):
@@ -2899,7 +2902,7 @@ class BranchUpdateCommutes(Task):
         for nm in names:
             nxt = []
             for s, _ in results:
-                fid = s.new_frame({"self": tab.ref, loop.target.id: nm, "stores": None})
+                fid = s.new_frame({"self": tab.ref, loop.target.id: nm, loop.iter.id: None})
                 fr = Frame(fid, [], module, "Symbols.branch_update", set(), fn_node=fnode)
                 for s2, c in I.exec_block(loop.body, s, fr):
                     if c.kind in ("ok", "continue"):
